@@ -73,6 +73,11 @@ func (sc *scriptConn) faultErr(what string) error {
 		return nats.ErrConnectionDraining
 	case "timeout":
 		return nats.ErrTimeout
+	case "restimeout":
+		// a connection wrapper may hand back the library's own error values
+		return res.ErrTimeout
+	case "resnotfound":
+		return res.ErrNotFound
 	}
 	return errors.New("injected " + what + " failure")
 }
@@ -314,7 +319,7 @@ func genCase() *rapid.Generator[Case] {
 		c.Req = rapid.SampledFrom([]string{"nil", "struct", "nil", "struct", "unmarshalable", "nilptr", "nilmap", "emptymap"}).Draw(t, "req")
 		if rapid.IntRange(0, 9).Draw(t, "faulty") == 0 {
 			c.Fault = rapid.SampledFrom([]string{"subscribe", "publish"}).Draw(t, "fault")
-			c.FaultErr = rapid.SampledFrom([]string{"", "closed", "draining", "timeout"}).Draw(t, "faulterr")
+			c.FaultErr = rapid.SampledFrom([]string{"", "closed", "draining", "timeout", "restimeout", "resnotfound"}).Draw(t, "faulterr")
 		}
 		n := rapid.IntRange(0, 6).Draw(t, "nmsg")
 		at := 0
@@ -332,11 +337,11 @@ func genCase() *rapid.Generator[Case] {
 			case "error":
 				m.Data = `{"error":{"code":"` + rapid.SampledFrom([]string{"system.notFound", "custom.x"}).Draw(t, "code") + `","message":"m"}}`
 			case "invalid":
-				m.Data = rapid.SampledFrom([]string{`{"res`, `[]`, `{}`, ` `, `42`, `{"result":}`, `{"result":1}{"result":2}`, `{"result":{"n":1}} trailing`, `{"resource":{"rid":"a.b"}}}`, `{"error":{"code":"system.notFound","message":"m"}},`}).Draw(t, "inv")
+				m.Data = rapid.SampledFrom([]string{`{"res`, `[]`, `{}`, ` `, `42`, `{"result":}`, `{"result":1}{"result":2}`, `{"result":{"n":1}} trailing`, `{"resource":{"rid":"a.b"}}}`, `{"error":{"code":"system.notFound","message":"m"}},`, "\xef\xbb\xbf{\"result\":1}", "\xc3\xa9", "\xff", "\u00a0{\"result\":1}"}).Draw(t, "inv")
 			case "empty":
 				m.Data = ""
 			case "pre":
-				m.N = 2 * rapid.SampledFrom([]int{0, 10, 50, 500, 1500, 3000}).Draw(t, "n")
+				m.N = 2 * rapid.SampledFrom([]int{0, 10, 50, 500, 1500, 3000, 1073741824, 1500000000}).Draw(t, "n")
 				m.Data = fmt.Sprintf(`timeout:"%d"`, m.N)
 				if rapid.IntRange(0, 5).Draw(t, "extra") == 0 {
 					m.Data = fmt.Sprintf(`foo:"bar" timeout:"%d"`, m.N)
